@@ -191,6 +191,21 @@ func renameBack(pkgs []*packages.Package, isLib func(*packages.Package) bool, sr
 				}
 			}
 			if len(cands) == 1 && rivals == 1 {
+				// the known name must be free: neither declared in the package scope (functions) nor
+				// reachable as a field or (promoted) method of the receiver type (methods)
+				free := true
+				fobj := u.obj.(*types.Func)
+				if recv := fobj.Type().(*types.Signature).Recv(); recv != nil {
+					if o, _, _ := types.LookupFieldOrMethod(recv.Type(), true, pk.Types, cands[0]); o != nil {
+						free = false
+					}
+				} else if pk.Types.Scope().Lookup(cands[0]) != nil {
+					free = false
+				}
+				if !free {
+					log = append(log, fmt.Sprintf("%s: %s looks like the known %s but that name is taken: left alone", pk.PkgPath, u.name, cands[0]))
+					continue
+				}
 				ren[u.obj] = cands[0]
 				log = append(log, fmt.Sprintf("%s: %s is the known %s under another name: renamed back", pk.PkgPath, u.name, cands[0]))
 			}
@@ -243,6 +258,11 @@ func renameBack(pkgs []*packages.Package, isLib func(*packages.Package) bool, sr
 							}
 						}
 						if len(cands) == 1 && rivals == 1 {
+							if tn, ok := pk.TypesInfo.Defs[ts.Name].(*types.TypeName); ok {
+								if o, _, _ := types.LookupFieldOrMethod(tn.Type(), true, pk.Types, cands[0]); o != nil {
+									continue // the known name is a (promoted) field or method of the struct now
+								}
+							}
 							ren[u.obj] = cands[0]
 							log = append(log, fmt.Sprintf("%s: field %s.%s is the known %s under another name: renamed back", pk.PkgPath, ts.Name.Name, u.name, cands[0]))
 						}
